@@ -44,6 +44,18 @@ Definition roundtrip_equiv_full : Prop := ∀ C b π m rsv,
     (∀ p, p ∈ of_type (c_g C) (is_ty BbIn) → fanin (c_g C') p = fanin (c_g C) p) ∧
     (∀ p, p ∈ of_type (c_g C) (is_ty BbOut) → fanout (c_g C') p = fanout (c_g C) p) ∧
     equiv_on (outputs (c_g C) ∪ of_type (c_g C) (is_ty BbIn)) (c_g C) (c_g C').
+(* the same restricted to where it can hold (wf_bb; all x constants of the original carry one value, as the reader shares one unknown):
+   open for circuits with blackbox instances in the assign style or with constants; proved below for circuits without blackboxes
+   (C03_roundtrip_equiv_bbfree_x) and, in the primitive style without constants, with blackboxes (C03_roundtrip_equiv_bb_prim) *)
+Definition roundtrip_equiv_bb_full : Prop := ∀ C b π m rsv,
+  wf_rt C → wf_bb C → write C b π = Ok m → list_to_set (module_ids m) ⊆ rsv →
+  ∃ C', read rsv (bbdefs_of C) m = Ok C' ∧
+    c_name C' = c_name C ∧ inputs (c_g C') = inputs (c_g C) ∧ outputs (c_g C') = outputs (c_g C) ∧ c_bbs C' = c_bbs C ∧
+    (∀ p, p ∈ of_type (c_g C) (is_ty BbIn) → fanin (c_g C') p = fanin (c_g C) p) ∧
+    (∀ p, p ∈ of_type (c_g C) (is_ty BbOut) → fanout (c_g C') p = fanout (c_g C) p) ∧
+    let S := outputs (c_g C) ∪ of_type (c_g C) (is_ty BbIn) in
+    (∀ v', consistent (c_g C') v' → ∃ v, consistent (c_g C) v ∧ (∃ x : bool, ∀ n, n ∈ of_type (c_g C) (is_ty CX) → v n = x) ∧ agrees S v v') ∧
+    (∀ v, consistent (c_g C) v → (∃ x : bool, ∀ n, n ∈ of_type (c_g C) (is_ty CX) → v n = x) → ∃ w, consistent (c_g C') w ∧ agrees S w v).
 Definition roundtrip_identical_full : Prop := ∀ C π m rsv,
   wf_rt C → no_consts (c_g C) → write C false π = Ok m → list_to_set (module_ids m) ⊆ rsv →
   read rsv (bbdefs_of C) m = Ok C.
@@ -118,7 +130,7 @@ Theorem C03_roundtrip_equiv_bbfree : ∀ C b π m rsv,
     equiv_on (outputs (c_g C)) (c_g C) (c_g C').
 Proof.
   intros C b π m rsv (Hl & Hg & Hn & _ & Hcl) Hb Hp Hx Hw Hids. rewrite Hb.
-  exact (roundtrip_equiv_bbfree_outputs C b π m rsv _ (lint_clean_rte C rt_flags Hl Hg Hn Hcl Hx Hp) Hb Hw Hids).
+  exact (roundtrip_equiv_bbfree_outputs C b π m rsv _ (lint_clean_rte C rt_flags Hl Hg Hn Hcl Hp) Hx Hb Hw Hids).
 Qed.
 Print Assumptions C03_roundtrip_equiv_bbfree.
 (* the same with the equivalence at *every node* of the original circuit (every node of the original is a node of the read-back
@@ -130,9 +142,27 @@ Theorem C03_roundtrip_equiv_bbfree_nodes : ∀ C b π m rsv,
     equiv_on (dom (c_g C)) (c_g C) (c_g C').
 Proof.
   intros C b π m rsv (Hl & Hg & Hn & _ & Hcl) Hb Hp Hx Hw Hids. rewrite Hb.
-  exact (roundtrip_equiv_bbfree C b π m rsv _ (lint_clean_rte C rt_flags Hl Hg Hn Hcl Hx Hp) Hb Hw Hids).
+  exact (roundtrip_equiv_bbfree C b π m rsv _ (lint_clean_rte C rt_flags Hl Hg Hn Hcl Hp) Hx Hb Hw Hids).
 Qed.
 Print Assumptions C03_roundtrip_equiv_bbfree_nodes.
+
+(* roundtrip_equiv for circuits without blackboxes with ANY constants, several x constants included, both styles: the reader shares one
+   unknown (tie_x) between all x constants, so the statement speaks about the valuations that give all x constants of the original one
+   value x: every consistent valuation of the read-back circuit is such a valuation of the original on the original's nodes, and every
+   such valuation of the original extends to a consistent valuation of the read-back circuit.  (Under independent unknowns two x nodes
+   of the original would be distinguishable; with at most one x constant the side condition is void and this is plain equivalence.)
+   Proof: as C03_roundtrip_equiv_bbfree with node_val carrying the shared unknown (Proofs/VerilogEqProofs.v, roundtrip_equiv_bbfree_x). *)
+Theorem C03_roundtrip_equiv_bbfree_x : ∀ C b π m rsv,
+  wf_rt C → c_bbs C = ∅ → no_pins (c_g C) → write C b π = Ok m → list_to_set (module_ids m) ⊆ rsv →
+  ∃ C', read rsv (bbdefs_of C) m = Ok C' ∧
+    c_name C' = c_name C ∧ inputs (c_g C') = inputs (c_g C) ∧ outputs (c_g C') = outputs (c_g C) ∧ c_bbs C' = c_bbs C ∧
+    (∀ v', consistent (c_g C') v' → ∃ v, consistent (c_g C) v ∧ (∃ x : bool, ∀ n, n ∈ of_type (c_g C) (is_ty CX) → v n = x) ∧ agrees (dom (c_g C)) v v') ∧
+    (∀ v, consistent (c_g C) v → (∃ x : bool, ∀ n, n ∈ of_type (c_g C) (is_ty CX) → v n = x) → ∃ w, consistent (c_g C') w ∧ agrees (dom (c_g C)) w v).
+Proof.
+  intros C b π m rsv (Hl & Hg & Hn & _ & Hcl) Hb Hp Hw Hids. rewrite Hb.
+  exact (roundtrip_equiv_bbfree_x C b π m rsv _ (lint_clean_rte C rt_flags Hl Hg Hn Hcl Hp) Hb Hw Hids).
+Qed.
+Print Assumptions C03_roundtrip_equiv_bbfree_x.
 
 (* roundtrip_identical for circuits WITH blackbox instances: connected and unconnected input and output pins, several instances of
    one type, escaped instance names (the AST holds the name), nets shared between instances, a flop output fed back into the logic.
@@ -155,6 +185,20 @@ Proof.
            (λ inst d, find_def_registry (c_bbs C) inst d Hd) Hw Hids).
 Qed.
 Print Assumptions C03_roundtrip_identical_bb.
+
+(* roundtrip_equiv (its conclusion word for word) for circuits with blackbox instances in the primitive style without constants:
+   corollary of C03_roundtrip_identical_bb - the read-back circuit is the original *)
+Theorem C03_roundtrip_equiv_bb_prim : ∀ C π m rsv,
+  wf_rt C → wf_bb C → no_consts (c_g C) → write C false π = Ok m → list_to_set (module_ids m) ⊆ rsv →
+  ∃ C', read rsv (bbdefs_of C) m = Ok C' ∧
+    c_name C' = c_name C ∧ inputs (c_g C') = inputs (c_g C) ∧ outputs (c_g C') = outputs (c_g C) ∧ c_bbs C' = c_bbs C ∧
+    (∀ p, p ∈ of_type (c_g C) (is_ty BbIn) → fanin (c_g C') p = fanin (c_g C) p) ∧
+    (∀ p, p ∈ of_type (c_g C) (is_ty BbOut) → fanout (c_g C') p = fanout (c_g C) p) ∧
+    equiv_on (outputs (c_g C) ∪ of_type (c_g C) (is_ty BbIn)) (c_g C) (c_g C').
+Proof.
+  intros C π m rsv H1 H2 H3 H4 H5. exists C. split; [exact (C03_roundtrip_identical_bb C π m rsv H1 H2 H3 H4 H5)|]. repeat (split; [done|]). apply equiv_on_refl_v.
+Qed.
+Print Assumptions C03_roundtrip_equiv_bb_prim.
 
 (* non-vacuity: a circuit with a blackbox, a constant and an escaped name satisfies wf_rt, is written and read back *)
 Definition ex_C : Circuit := Cases.mk "top"
@@ -236,3 +280,20 @@ Proof.
   - apply (bool_decide_unpack _). vm_compute. exact I.
   - vm_compute. reflexivity.
 Qed.
+
+(* non-vacuity of C03_roundtrip_equiv_bbfree_x: the hypotheses hold for a circuit with two x constants (one of them an output), a 0 and a 1 *)
+Definition ex_C5 : Circuit := Cases.mk "top5"
+  [("a", Input, true, []); ("u", CX, true, []); ("w", CX, false, []); ("k1", C1, false, []); ("z", C0, false, []);
+   ("g_0", Xor, true, ["a"; "u"; "w"]); ("n1", Nor, true, ["g_0"; "k1"; "z"]); ("b1", Buf, true, ["w"])] [].
+Definition ex_ord5 : worder :=
+  {| o_ins := ["a"]; o_outs := ["b1"; "u"; "n1"; "a"; "g_0"]; o_bbs := []; o_nodes := ["n1"; "w"; "b1"; "z"; "g_0"; "u"; "k1"];
+     o_fi := [("n1", ["z"; "g_0"; "k1"]); ("w", []); ("b1", ["w"]); ("z", []); ("g_0", ["w"; "a"; "u"]); ("u", []); ("k1", [])] |}.
+Example C03_ex_equiv_x_hyps :
+  lint ex_C5 rt_flags = Ok () ∧ closedb (c_g ex_C5) = true ∧ c_bbs ex_C5 = ∅ ∧ bool_decide (no_pins (c_g ex_C5)) = true ∧
+  bool_decide (size (of_type (c_g ex_C5) (is_ty CX)) = 2) = true ∧
+  bool_decide (map_Forall (λ n i, n_ty i ∈ gate_types → n_fi i ≠ ∅) (c_g ex_C5)) = true ∧
+  bool_decide (map_Forall (λ n (_ : ninfo), n ≠ "" ∧ starts_digit n = false) (c_g ex_C5)) = true ∧
+  match write ex_C5 true ex_ord5, write ex_C5 false ex_ord5 with
+  | Ok m, Ok m' => match read (list_to_set (module_ids m)) [] m, read (list_to_set (module_ids m')) [] m' with Ok _, Ok _ => true | _, _ => false end
+  | _, _ => false end = true.
+Proof. vm_compute. done. Qed.
